@@ -27,20 +27,35 @@ contract github.com/prometheus/prometheus/config.Load
   ensures result1 == nil ==> result0 != nil && fresh(result0)
   modifies github.com/prometheus/prometheus/config.Config.* at {}
 
+// "For every accepted configuration ... the generated file ..." (C11): the injector, the scrape manager and the discovery learn
+// about a configuration only through the reload callbacks, so an accepted reload hands the published configuration to every
+// registered callback, whatever changed in it (the digest ignores external labels; the generated file does not).
+// (assumed) a callback does not touch the manager
+ghost global gNotified int
+contract field ConfigManager.callbacks(cfg)
+  modifies nothing
+on call ConfigManager.callbacks(cfg) in ConfigManager.ReloadFromRaw
+   assert[C11,C16] @listeners_get_the_published_configuration cfg == c.currentConfig
+   do gNotified = gNotified + 1
+
 // a successful reload publishes the loaded configuration together with the digest computed over that very object, with its
 // external labels put back; a failed load / digest leaves the published configuration as it was
 contract ConfigManager.ReloadFromRaw
   requires c != nil && c.currentConfig != nil
+  requires forall k in 0..len(c.callbacks) :: c.callbacks[k] != nil
   ensures[C16] @published_hash_is_of_the_published_config c.currentConfig != old(c.currentConfig) ==>
         (c.currentConfig.Config == gHashed && c.currentConfig.ConfigHash == sprint(gLastHash) && c.currentConfig.ExtraConfig == old(c.currentConfig.ExtraConfig))
   ensures[C16] @failed_reload_keeps_the_published_config (err != nil && c.currentConfig == old(c.currentConfig)) ==> c.currentConfig.ConfigHash == old(c.currentConfig.ConfigHash)
-  modifies ConfigManager.currentConfig at {c}, ConfigInfo.* at {}, github.com/prometheus/prometheus/config.Config.* at {}, gLastHash, gHashed
+  ensures[C11,C16] @every_accepted_configuration_reaches_every_listener err == nil ==> gNotified == old(gNotified) + len(c.callbacks)
+  modifies ConfigManager.currentConfig at {c}, ConfigInfo.* at {}, github.com/prometheus/prometheus/config.Config.* at {}, gLastHash, gHashed, gNotified
+  loop 1 invariant[C11,C16] @every_accepted_configuration_reaches_every_listener gNotified == old(gNotified) + idx1
   loop 1 invariant c.currentConfig == info && info.Config == gHashed && info.ConfigHash == sprint(gLastHash) && info.ExtraConfig == old(c.currentConfig.ExtraConfig)
 
 // C13 "or scraping administratively stopped": the stop reason the coordinator sends becomes the one the proxy reads
 // (Proxy.getCurCfg is wired to ConfigManager.ConfigInfo); the configuration and its hash are not touched by it
 contract ConfigManager.UpdateExtraConfig
   requires c != nil && c.currentConfig != nil && c.currentConfig.ExtraConfig != nil
+  requires forall k in 0..len(c.callbacks) :: c.callbacks[k] != nil
   ensures[C13] @stop_reason_is_the_one_last_sent c.currentConfig.ExtraConfig != nil && c.currentConfig.ExtraConfig.StopScrapeReason == cfg.StopScrapeReason
   ensures[C13,C16] @extra_config_does_not_touch_the_hash c.currentConfig == old(c.currentConfig) && c.currentConfig.ConfigHash == old(c.currentConfig.ConfigHash) && c.currentConfig.Config == old(c.currentConfig.Config)
   modifies ConfigInfo.ExtraConfig at {c.currentConfig}, ExtraConfig.* at {}
